@@ -90,6 +90,21 @@ def gen(ctx, profile, nscripts, nsteps, ai=1):
     return out
 
 
+def gen_exh(ctx, which, npos_per_text, full=False):
+    """profile exh of Gen_Vi: every command of the set `which' ("mot" / "edit") from cursor positions 1..npos of each small
+    buffer, two positions per TLC process"""
+    env, info = lib_env(ctx)
+    jobs = []
+    for text, npos in enumerate(npos_per_text, 1):
+        for lo in range(1, npos + 1, 2):
+            jobs.append(dict(PROFILE="exh", EXHTEXT=text, EXHLO=lo, EXHHI=min(npos, lo + 1), EXHSET=which, EXHFULL=1 if full else 0,
+                             AI=(text + lo // 2) % 2, **env))
+    out = []
+    for job, path in gen_tables(ctx, jobs, module="Gen_Vi", timeout=3000):
+        out += [json.loads(ln) for ln in open(path)]
+    return out
+
+
 def lib_env(ctx):
     import tables
     d = ctx.path("tlalib", "x")[:-2]
@@ -118,9 +133,14 @@ def show(p, f):
     return p.get("xcol")
 
 
-def vi_check(ctx, own, profile, nscripts, nsteps, rule, assumptions):
+def vi_check(ctx, own, profile, nscripts, nsteps, rule, assumptions, exh=None):
     scripts = (gen(ctx, "corpus", 1, 1) if own == "C13" else []) + \
         gen(ctx, profile, nscripts // 2, nsteps, ai=1) + gen(ctx, profile, nscripts - nscripts // 2, nsteps, ai=0)
+    nexh = 0
+    if exh:
+        ex_scripts = gen_exh(ctx, *exh)
+        nexh = sum(len(sc["steps"]) for sc in ex_scripts)
+        scripts += ex_scripts
     nthm = 0
     for sc in scripts:
         for s in sc["steps"]:
@@ -130,7 +150,7 @@ def vi_check(ctx, own, profile, nscripts, nsteps, rule, assumptions):
     ctx.build()
     with ThreadPoolExecutor(NCPU) as ex:
         results = list(ex.map(lambda s: run_script(ctx, s), scripts))
-    st = dict(scripts=len(results), commands=0, own_cmds=0, moved=0, mismatch_own=0, mismatch_other=0, incomplete=0)
+    st = dict(scripts=len(results), commands=0, own_cmds=0, moved=0, mismatch_own=0, mismatch_other=0, incomplete=0, exhaustive_steps=nexh)
     for sc, r in zip(scripts, results):
         st["commands"] += r["checked"]
         prev = None
